@@ -181,7 +181,10 @@ type ChunkReader struct {
 	Reads     int
 	Err       error // returned when data is exhausted (nil => io.EOF must be set by caller)
 	ZeroReads bool  // deliver a zero-length read (0,nil) before each chunk
-	zeroNext  bool
+	// EOFWithLast: the read that delivers the last byte also returns Err (quic-go returns the
+	// final bytes together with io.EOF when the FIN arrived with them)
+	EOFWithLast bool
+	zeroNext    bool
 }
 
 func (r *ChunkReader) Read(p []byte) (int, error) {
@@ -205,5 +208,8 @@ func (r *ChunkReader) Read(p []byte) (int, error) {
 	}
 	n := copy(p, r.Data[r.Pos:end])
 	r.Pos += n
+	if r.EOFWithLast && r.Pos >= len(r.Data) && r.Err != nil {
+		return n, r.Err
+	}
 	return n, nil
 }
